@@ -99,7 +99,22 @@ func c14Worlds() []c14World {
 			s.Body.Data = wire.AppendFrame(nil, 0, []byte{0xff, 0xff, 0xff})
 		}, small),
 	}
-	return []c14World{toGRPC, toConnect}
+	// re-framing toward a gRPC-Web backend: the end of the response is a frame that is buffered and decoded
+	toWeb := c14World{name: "target=gRPC-Web/proto/gzip (re-framing)", cfg: world.Config{Protocols: []vanguard.Protocol{vanguard.ProtocolGRPCWeb}, Codecs: []string{"proto"}, Compression: []string{"gzip"}, MaxMsg: 4000}}
+	webOK := echo(`{"name":"w1","extraText":"` + strings.Repeat("W", 100) + `"}`)
+	toWeb.rpcs = []c14RPC{
+		mk("grpc-proto-gzip", wire.GRPC, "Unary", "proto", "gzip", true, webOK, nil, big),
+		mk("grpc-bad-trailer-frame", wire.GRPC, "Unary", "proto", "gzip", true, func(b *world.Backend, r *http.Request) *world.Reply {
+			rep := webOK(b, r)
+			out := *rep.Out
+			offs := frameOffsets(out.Body)
+			out.Body = wire.AppendFrame(append([]byte(nil), out.Body[:offs[len(offs)-1]]...), 0x80, []byte("grpc-status 0\r\n"))
+			rep.Out = &out
+			return rep
+		}, nil, big),
+		mk("cstream-proto-bidi", wire.ConnectStream, "Bidi", "proto", "", false, echo(`{"name":"w3a"}`, `{"name":"w3b"}`), nil, small, other),
+	}
+	return []c14World{toGRPC, toConnect, toWeb}
 }
 
 type c14Outcome struct {
